@@ -475,3 +475,14 @@ Definition run_case_T (T : bytes) (vfs : bool) (rcp client_path : bytes) : obs :
 
 Definition run_jail (allowed : option (list (N * list bytes))) (url : N * list bytes) : obs :=
   obool (pre_open_hook allowed url).
+
+(* setup_jail + _pre_open_hook on real locations: jail root and candidate are given
+   as URL paths below their server's root (server ids: 0 filtered, 1 chroot, 2 local);
+   the transports normalise them to segments (pf_segs); containment is decided
+   segment-wise, never by string prefix.  Second component: the candidate
+   transport's base path below its server root. *)
+Definition run_jail2 (jail : bool) (rsrv : N) (root : bytes) (csrv : N) (cand : bytes) : obs :=
+  let rs := pf_segs root in
+  let cs := pf_segs cand in
+  OL [obool (pre_open_hook (if jail then Some [(rsrv, rs)] else None) (csrv, cs));
+      OB (join_slash cs)].
